@@ -15,10 +15,12 @@ Conts == LET tv == TV(MT, GenLen)  n == Len(tv)  m == MinI(n, 5)
          IN [j \in 1..m |-> Content(tv[idx(j)], MT)]
 MaxLenOf(cs) == LET RECURSIVE go(_) go(i) == IF i > Len(cs) THEN MinSize(MT) ELSE MaxI(Size(Build(cs[i], MT, 4 * GenLen).tree, MT), go(i + 1)) IN go(1)
 MML == MaxLenOf(Conts)
-BufCap == 2 * MaxI(MML, MinSize(MT))
+BufCap == IF CapExtra < 1000 THEN CeilMul(MaxI(MML, MinSize(MT)) + CapExtra, Align(MT)) ELSE 2 * MaxI(MML, MinSize(MT))
 MsgBytes(c, g) == LET tr == Build(c, MT, BufCap).tree IN Fill(SubSeq(Enc(tr, MT, BufCap), 1, Size(tr, MT)), g)
 \* message index sequences of length NMsgs: rotations, so that every content is first, middle and last
+\* (ascending and descending rotations: small-before-large and large-before-small neighbours both occur)
 Seqs == [s \in 1..Len(Conts) |-> [i \in 1..NMsgs |-> ((s + i - 2) % Len(Conts)) + 1]]
+        \o [s \in 1..Len(Conts) |-> [i \in 1..NMsgs |-> ((s + 2 * Len(Conts) - i) % Len(Conts)) + 1]]
 ValidStreams == [s \in 1..Len(Seqs) |->
                   [bytes |-> Flatten([i \in 1..NMsgs |-> MsgBytes(Conts[Seqs[s][i]], 170)]), nmsg |-> NMsgs,
                    msgs |-> [i \in 1..NMsgs |-> Conts[Seqs[s][i]]]]]
@@ -27,9 +29,12 @@ RECURSIVE Strs(_)
 Strs(n) == IF n = 0 THEN << <<>> >> ELSE LET p == Strs(n - 1) al == SetToSeq(RawAlphabet) IN
            p \o Flatten([i \in 1..Len(p) |-> IF Len(p[i]) = n - 1 THEN [j \in 1..Len(al) |-> Append(p[i], al[j])] ELSE <<>>])
 Mutated == LET b == ValidStreams[1].bytes IN
-           Flatten([i \in 1..MinI(Len(b), 12) |-> [j \in 1..3 |-> [b EXCEPT ![i] = <<1, 200, 255>>[j]]]])
+           Flatten([i \in 1..Len(b) |-> [j \in 1..3 |-> [b EXCEPT ![i] = <<1, 200, 255>>[j]]]])
 Truncated == LET b == ValidStreams[1].bytes IN [i \in 1..(Len(b) - 1) |-> SubSeq(b, 1, i)]
-ArbStreams == LET all == Strs(RawLen) \o Mutated \o Truncated IN [i \in 1..Len(all) |-> [bytes |-> all[i], nmsg |-> -1, msgs |-> <<>>]]
+\* a header announcing more than fits, followed by enough bytes to fill the buffer (buffer exhaustion, not a hang)
+MutatedLong == LET b == ValidStreams[1].bytes IN
+               [i \in 1..Len(b) |-> [b EXCEPT ![i] = 255] \o Rep(BufCap + 3, 85)]
+ArbStreams == LET all == Strs(RawLen) \o Mutated \o Truncated \o MutatedLong IN [i \in 1..Len(all) |-> [bytes |-> all[i], nmsg |-> -1, msgs |-> <<>>]]
 MCStreams == IF Arbitrary THEN ArbStreams ELSE ValidStreams
 
 Header(i) == [k |-> "iostream", id |-> MsgId, si |-> i, bytes |-> MCStreams[i].bytes, msgs |-> MCStreams[i].msgs,
